@@ -24,7 +24,7 @@ SENTINEL = {"head": ["name Sentinel", "version 1.0", "target gaussian (shots=10)
 
 
 def runs_for(tier):
-    return 1600 if tier == "quick" else 24000
+    return 1200 if tier == "quick" else 24000
 
 
 def _io_fault(rng, paths, nlines_hint=12):
